@@ -1,9 +1,11 @@
 package main
 
 import (
+	"database/sql"
 	"errors"
 	"fmt"
 	"os"
+	"path/filepath"
 	"reflect"
 	"runtime"
 	"sort"
@@ -526,6 +528,10 @@ func failedBatchCheck(r *ev.Run, root, id string, sp *spec) {
 				}
 			}()
 		}
+	case sp.name == "sqlite":
+		for i := 0; i < max(rounds, 9); i++ {
+			sqliteFailedBatch(r, root, id, sp, rng, i, baseline, keys)
+		}
 	case sp.buffered && sp.base != "sqlite":
 		// (over sqlite an injected CommitBatch error would leave the harness-begun transaction
 		// holding sqlite's gate: a harness artefact, so that combination is skipped)
@@ -590,4 +596,244 @@ func failedBatchCheck(r *ev.Run, root, id string, sp *spec) {
 			}()
 		}
 	}
+}
+
+// ------------------------------------------------------------ sqlite: a statement of the batch fails mid-way
+
+// sqliteFailedBatch makes one mutation in the middle (or at either end) of a batch fail and
+// judges what is left of the batch.  The failure is a real statement error of the database: a
+// harness-installed trigger on the rows table raises ABORT for one poisoned key (insert) or
+// for the delete of one poisoned row; sqlkv executes every mutation when it is added to the
+// batch, remembers the first error and reports it from CommitBatch.  A second variant closes
+// the store between BeginBatch and CommitBatch.
+//
+// Judged: in the same process and after Close + re-open the store holds all of the batch or
+// none of it; a CommitBatch that returned nil must have applied the batch; and an ordinary
+// batch committed afterwards is applied (the failed batch must not linger).
+func sqliteFailedBatch(r *ev.Run, root, id string, sp *spec, rng interface{ Intn(int) int }, round int, baseline0 map[string]string, keys []string) {
+	dir, err := os.MkdirTemp(root, "fbs")
+	if err != nil {
+		r.Inconclusive("mkdir: " + err.Error())
+		return
+	}
+	defer os.RemoveAll(dir)
+	const poisonSet, poisonDel = "fb|poison", "fb|poisondel"
+	baseline := map[string]string{poisonDel: "p"}
+	for k, v := range baseline0 {
+		baseline[k] = v
+	}
+	in, err := sp.open(dir)
+	if err != nil {
+		r.Inconclusive(fmt.Sprintf("cannot open %s: %v", sp.name, err))
+		return
+	}
+	b := in.kv.BeginBatch()
+	for k, v := range baseline {
+		b.Set(k, v)
+	}
+	if err := in.kv.CommitBatch(b); err != nil {
+		r.Inconclusive(fmt.Sprintf("%s baseline batch: %v", sp.name, err))
+		return
+	}
+	if err := in.kv.Close(); err != nil {
+		r.Inconclusive(fmt.Sprintf("%s close: %v", sp.name, err))
+		return
+	}
+	variant := []string{"insert-fails", "delete-fails", "close-before-commit"}[round%3]
+	if variant != "close-before-commit" {
+		db, err := sql.Open("sqlite", filepath.Join(dir, "db.sqlite"))
+		if err == nil {
+			_, err = db.Exec(`CREATE TRIGGER verif_poison_ins BEFORE INSERT ON rows WHEN NEW.k = '` + poisonSet + `' BEGIN SELECT RAISE(ABORT, 'verif: injected statement failure'); END`)
+		}
+		if err == nil {
+			_, err = db.Exec(`CREATE TRIGGER verif_poison_del BEFORE DELETE ON rows WHEN OLD.k = '` + poisonDel + `' BEGIN SELECT RAISE(ABORT, 'verif: injected statement failure'); END`)
+		}
+		if db != nil {
+			db.Close()
+		}
+		if err != nil {
+			r.Inconclusive("cannot install the failure trigger in the sqlite file: " + err.Error())
+			return
+		}
+	}
+	in, err = sp.open(dir)
+	if err != nil {
+		r.Inconclusive(fmt.Sprintf("cannot re-open %s: %v", sp.name, err))
+		return
+	}
+	closed := false
+	defer func() {
+		if !closed {
+			in.kv.Close()
+		}
+	}()
+
+	// the batch: 2-7 ordinary mutations with the failing one at the start, inside or at the end
+	var ms []fbMut
+	n := 2 + rng.Intn(6)
+	for i := 0; i < n; i++ {
+		k := keys[rng.Intn(len(keys))]
+		if rng.Intn(3) == 0 {
+			ms = append(ms, fbMut{Del: true, K: k})
+		} else {
+			ms = append(ms, fbMut{K: k, V: fmt.Sprintf("new%d.%d", i, rng.Intn(1000))})
+		}
+	}
+	ms = append(ms, fbMut{K: "fb|new", V: "n"}, fbMut{Del: true, K: "fb|a"})
+	pos, where := 0, "first"
+	switch (round / 3) % 3 { // rounds 0-8 cover every (variant, position) pair
+	case 1:
+	case 2:
+		pos, where = len(ms), "last"
+	default:
+		pos, where = 1+rng.Intn(len(ms)-1), "inside"
+	}
+	closeAt := -1
+	switch variant {
+	case "insert-fails":
+		ms = append(ms[:pos], append([]fbMut{{K: poisonSet, V: "x"}}, ms[pos:]...)...)
+	case "delete-fails":
+		ms = append(ms[:pos], append([]fbMut{{Del: true, K: poisonDel}}, ms[pos:]...)...)
+	default:
+		closeAt = pos
+	}
+	witness := map[string]any{"case_id": id, "impl": sp.name, "variant": variant, "failing_mutation_position": where, "baseline": baseline, "batch": ms}
+
+	var cerr error
+	if r.Guard("batch/"+sp.site, witness, func() {
+		b := in.kv.BeginBatch()
+		for i, m := range ms {
+			if i == closeAt {
+				in.kv.Close()
+				closed = true
+			}
+			if m.Del {
+				b.Delete(m.K)
+			} else {
+				b.Set(m.K, m.V)
+			}
+		}
+		if closeAt == len(ms) {
+			in.kv.Close()
+			closed = true
+		}
+		cerr = in.kv.CommitBatch(b)
+	}) {
+		return
+	}
+	witness["commit_error"] = fmt.Sprint(cerr)
+	all := applyMuts(baseline, ms)
+	classify := func(got map[string]string, stage string) bool {
+		r.Eval(1)
+		w := map[string]any{"stage": stage, "contents": got}
+		for k, v := range witness {
+			w[k] = v
+		}
+		switch {
+		case reflect.DeepEqual(got, all):
+			r.Note("failed_batch_outcome/"+sp.name, "all")
+		case reflect.DeepEqual(got, baseline) && cerr != nil:
+			r.Note("failed_batch_outcome/"+sp.name, "none")
+		case reflect.DeepEqual(got, baseline):
+			r.Violation("batch-lost/"+sp.site, fmt.Sprintf("[%s] CommitBatch returned nil but none of the batch is there (%s)", sp.name, stage), w)
+			return false
+		default:
+			r.Violation("batch-partial/"+sp.site, fmt.Sprintf("[%s] after a CommitBatch that returned %v (%s, failing mutation %s) the store holds part of the batch (%s)", sp.name, cerr, variant, where, stage), w)
+			return false
+		}
+		return true
+	}
+	state := baseline
+	if !closed {
+		var got map[string]string
+		var derr error
+		if r.Guard("find/"+sp.site, witness, func() { got, derr = dump(in.kv) }) {
+			return
+		}
+		if derr != nil {
+			r.Violation("iter/"+sp.site, fmt.Sprintf("[%s] range scan after a failed CommitBatch = %v", sp.name, derr), witness)
+			return
+		}
+		if !classify(got, "same process") {
+			return
+		}
+		state = got
+		// an ordinary batch afterwards must commit and be applied
+		follow := []fbMut{{K: "fb|after", V: "1"}, {Del: true, K: "fb|b"}, {K: "fb|a|x", V: "after"}}
+		var ferr error
+		if r.Guard("batch/"+sp.site, witness, func() {
+			b := in.kv.BeginBatch()
+			for _, m := range follow {
+				if m.Del {
+					b.Delete(m.K)
+				} else {
+					b.Set(m.K, m.V)
+				}
+			}
+			ferr = in.kv.CommitBatch(b)
+		}) {
+			return
+		}
+		r.Eval(1)
+		if ferr != nil {
+			w := map[string]any{"follow_up_batch": follow}
+			for k, v := range witness {
+				w[k] = v
+			}
+			r.Violation("op-error/"+sp.site+".commit-after-failed-batch", fmt.Sprintf("[%s] an ordinary batch after a CommitBatch that failed with %q = %v, want nil", sp.name, fmt.Sprint(cerr), ferr), w)
+			return
+		}
+		state = applyMuts(state, follow)
+		witness["follow_up_batch"] = follow
+		if r.Guard("find/"+sp.site, witness, func() { got, derr = dump(in.kv) }) {
+			return
+		}
+		r.Eval(1)
+		if derr != nil || !reflect.DeepEqual(got, state) {
+			w := map[string]any{"contents": got, "want": state}
+			for k, v := range witness {
+				w[k] = v
+			}
+			r.Violation("batch-after-failed/"+sp.site, fmt.Sprintf("[%s] after a failed CommitBatch and an ordinary committed batch the contents are not (outcome of the failed batch) + (the ordinary batch) (scan error: %v)", sp.name, derr), w)
+			return
+		}
+		closed = true
+		if err := in.kv.Close(); err != nil {
+			r.Violation("reopen/"+sp.site, fmt.Sprintf("[%s] Close after a failed commit: %v", sp.name, err), witness)
+			return
+		}
+	}
+	in2, err := sp.open(dir)
+	if err != nil {
+		r.Violation("reopen/"+sp.site, fmt.Sprintf("[%s] re-open after a failed commit: %v", sp.name, err), witness)
+		return
+	}
+	defer in2.kv.Close()
+	got, err := dump(in2.kv)
+	if err != nil {
+		r.Inconclusive(fmt.Sprintf("%s dump: %v", sp.name, err))
+		return
+	}
+	if closed && closeAt >= 0 {
+		if !classify(got, "after re-open") {
+			return
+		}
+	} else {
+		r.Eval(1)
+		if !reflect.DeepEqual(got, state) {
+			w := map[string]any{"contents_after_reopen": got, "want": state}
+			for k, v := range witness {
+				w[k] = v
+			}
+			r.Violation("reopen/"+sp.site, fmt.Sprintf("[%s] contents after Close + re-open differ from the contents before (a failed batch, then an ordinary batch)", sp.name), w)
+			return
+		}
+	}
+	if cerr != nil {
+		r.Note("failed_batch_forced", sp.name)
+		r.Note("failed_batch_midway", sp.name+"/"+variant+"/"+where)
+	} else {
+		r.Note("failed_batch_not_failed", sp.name+"/"+variant)
+	}
+	r.Count("failed_batch_rounds/"+sp.name, 1)
 }
